@@ -260,6 +260,18 @@ func condBlock(b *ssa.BasicBlock) (*ssa.Phi, bool) {
 	return ph, neg
 }
 
+// pureCondBlock: nothing but phis, comparisons and the branch (no wire effect that threading would skip).
+func pureCondBlock(b *ssa.BasicBlock) bool {
+	for _, in := range b.Instrs[:len(b.Instrs)-1] {
+		switch in.(type) {
+		case *ssa.Phi, *ssa.UnOp, *ssa.BinOp, *ssa.DebugRef:
+		default:
+			return false
+		}
+	}
+	return true
+}
+
 func (wb *wireBuilder) build(n *wNFA, fn *ssa.Function, c *wireCtx, streamParams, verParams map[*ssa.Parameter]bool, recvVer bool, recvConst *int64) (int, []int) {
 	if fn.Blocks == nil || c.depth > 10 {
 		wb.problem("no body or too deep: " + wb.p.Name(fn))
@@ -316,6 +328,21 @@ func (wb *wireBuilder) build(n *wNFA, fn *ssa.Function, c *wireCtx, streamParams
 	// edge from `cur` (end of block b) to successor s, threading through value-position condition blocks
 	var link func(cur int, b, s *ssa.BasicBlock, depth int)
 	link = func(cur int, b, s *ssa.BasicBlock, depth int) {
+		if nph, isNE := nilPhiCond(s); nph != nil && depth < 4 && pureCondBlock(s) {
+			for i, pred := range s.Preds {
+				if pred != b {
+					continue
+				}
+				if isNil, known := nilnessAt(nph.Edges[i], pred); known {
+					if isNil != isNE {
+						link(cur, s, s.Succs[0], depth+1)
+					} else {
+						link(cur, s, s.Succs[1], depth+1)
+					}
+					return
+				}
+			}
+		}
 		if ph, neg := condBlock(s); ph != nil && depth < 4 {
 			for i, pred := range s.Preds {
 				if pred != b {
